@@ -502,7 +502,7 @@ def replay(path):
             old = signs.copy()
             dirn = tuple(w['direction']) if w.get('direction') else None
             # every tie-break outcome of the real generator is tried (the model's draw is one of them)
-            for seed in range(6):
+            for seed in range(40):
                 dec._rng = np.random.default_rng(seed)
                 c2 = dict(before)
                 new = dec.sweep_move(old.copy(), c2, dirn) if dirn else dec.sweep_move(old.copy(), c2)
